@@ -10,12 +10,29 @@ type Env struct {
 	Taken  []int
 	Arity  []int
 	Labels []string
+	// Script, when set, answers the occ-th occurrence (0-based) of a label with a fixed choice, whatever the
+	// position of that choice point in the run (long scripted histories); other points follow the prefix.
+	Script map[string]map[int]int
+	occ    map[string]int
 }
 
 // Choose returns the answer (0..n-1) for the next choice point.
 func (e *Env) Choose(label string, n int) int {
 	i := len(e.Taken)
 	c := 0
+	if e.Script != nil {
+		if e.occ == nil {
+			e.occ = map[string]int{}
+		}
+		k := e.occ[label]
+		e.occ[label] = k + 1
+		if v, ok := e.Script[label][k]; ok && v < n {
+			e.Taken = append(e.Taken, v)
+			e.Arity = append(e.Arity, n)
+			e.Labels = append(e.Labels, label)
+			return v
+		}
+	}
 	if i < len(e.prefix) {
 		c = e.prefix[i]
 		if c >= n {
